@@ -17,7 +17,7 @@ PARTIAL = []
 
 
 def gen_cases(rng, tier):
-    n = 600 if tier == "quick" else 12000
+    n = 600 if tier == "quick" else 5000
     cases = W.scripted(rng)
     for _ in range(n):
         cases.append({"seed": rng.randrange(1 << 40), "n": rng.choice([6, 10, 16, 24]), "focus": {"extra": ["append_wfm"] * 8, "irregular": 0.4}})
